@@ -69,7 +69,8 @@ INSIDE = ["centre", "border", "below_border", "interior"]
 
 def gen_cluster(r, g, flavour):
     """flavour: inside | neg | beyond1 | beyond | float (around binary64 borders; may fall outside)"""
-    n = r.choice([1, 1, 2, 3, 5, 0.25, 0.5, 7, 100, 0]) * 1.0
+    # 2^24 + 1 needs more than binary32's 24 bits: an accumulation in a narrower type than float64 shows
+    n = r.choice([1, 1, 2, 3, 5, 0.25, 0.5, 7, 100, 0, 1, 2, 3, 5, 16777217]) * 1.0
     cv, ch = r.choice(INSIDE), r.choice(INSIDE)
     if flavour == "float":
         cv = r.choice(["fborder", "fborder", "centre", "interior", "neg"])
@@ -139,7 +140,11 @@ def gen_case(r, stream: str):
             if stream == "malformed":
                 kind = r.choice(["ok", "shape", "neg", "neg"])
             a = gen_array(r, g, kind)
-            ops.append(dict(op="arr", a=a, dt=r.choice(["f8", "f8", "f8", "f4", "f2"])))
+            dt = r.choice(["f8", "f8", "f8", "f4", "f2"])
+            if dt == "f8" and r.random() < 0.15:      # one entry that binary32 cannot hold (only where the input is float64)
+                i, j = r.randrange(len(a)), r.randrange(len(a[0]))
+                a[i][j] = 16777217.0 if a[i][j] >= 0 else a[i][j]
+            ops.append(dict(op="arr", a=a, dt=dt))
             if nframe:
                 nframe += sum(1 for row in a for x in row if x > 0)
         elif k == "cl":
@@ -171,11 +176,36 @@ def gen_case(r, stream: str):
             ops.append(dict(op="reset"))
             nframe = 0
         elif k == "read":
-            ops.append(dict(op=r.choice(["read", "read", "read", "xr"])))   # xr = .to_xarray(), the other read path
+            # the three ways the container reports its array: .array, .to_xarray(), numpy's array protocol
+            ops.append(dict(op=r.choice(["read", "read", "read", "xr", "np"])))
         else:
             ops.append(dict(op=k))
     ops.append(dict(op="read"))
     return dict(g, ops=ops, stream=stream)
+
+
+ENUM_ALPHABET = [
+    dict(op="arr", a=[[1.0, 0.0]]),
+    dict(op="cl", cs=[[4.0, 0.5, 0.5]]),      # pixel 0
+    dict(op="cl", cs=[[8.0, 0.5, 1.0]]),      # on the border: pixel 1
+    dict(op="cl", cs=[[16.0, 0.5, 2.0]]),     # on the far edge: outside
+    dict(op="read"), dict(op="xr"), dict(op="np"), dict(op="rmall"), dict(op="rm", ids=[0]), dict(op="rm", ids=[1]),
+    dict(op="reset"),
+]
+
+
+def enum_cases(max_len: int):
+    """EVERY op sequence of length 1..max_len over ENUM_ALPHABET on a 1x2 detector (+ a final read): exhaustive
+    small-scope coverage of the state machine (which representation holds the charge, cached array, labels).
+    The charge values are distinct powers of two, so every mis-accounting shows in the sum."""
+    import itertools
+
+    out = []
+    for n in range(1, max_len + 1):
+        for seq in itertools.product(range(len(ENUM_ALPHABET)), repeat=n):
+            ops = [dict(ENUM_ALPHABET[i]) for i in seq] + [dict(op="read")]
+            out.append(dict(rows=1, cols=2, ph=1.0, pw=1.0, reset_via="charge", ops=ops, stream="enum"))
+    return out
 
 
 CORPUS = [
@@ -194,6 +224,12 @@ CORPUS = [
     dict(rows=2, cols=2, ph=1.0, pw=1.0, stream="removal",
          ops=[dict(op="arr", a=[[1.0, 0.0], [0.0, 2.0]]), dict(op="cl", cs=[[5.0, 0.5, 0.5]]), dict(op="rmall"),
               dict(op="read")]),
+    # F6 numpy's array protocol ignored the clusters
+    dict(rows=1, cols=2, ph=1.0, pw=1.0, stream="clean",
+         ops=[dict(op="cl", cs=[[4.0, 0.5, 0.5]]), dict(op="np")]),
+    dict(rows=1, cols=2, ph=1.0, pw=1.0, stream="clean",
+         ops=[dict(op="arr", a=[[1.0, 0.0]]), dict(op="cl", cs=[[4.0, 0.5, 1.5]]), dict(op="read"),
+              dict(op="cl", cs=[[8.0, 0.5, 1.0]]), dict(op="np"), dict(op="xr")]),
     # mixed representations, borders
     dict(rows=3, cols=2, ph=2.0, pw=0.5, stream="clean",
          ops=[dict(op="arr", a=[[1.0, 0.0], [0.0, 2.0], [0.0, 0.0]]), dict(op="read"),
@@ -300,6 +336,10 @@ def classify(c, res, k_bad: int):
     for name in ("beyond_range", "negative_wrap", "stale_array_after_removal"):
         if name in classes:
             return name
+    if ops and ops[-1]["op"] == "np":
+        return "array_protocol"
+    if ops and ops[-1]["op"] == "xr":
+        return "to_xarray"
     return "accounting"
 
 
@@ -326,7 +366,7 @@ def cop(o) -> str:
         return f"AddClusters {core.clist(ccl(c) for c in o['cs'])}"
     if k == "rm":
         return f"Remove {core.clist(core.cz(i) for i in o['ids'])}"
-    return {"read": "Read", "xr": "Read", "frame": "ReadFrame", "rmall": "RemoveAll", "reset": "Reset"}[k]
+    return {"read": "Read", "xr": "Read", "np": "Read", "frame": "ReadFrame", "rmall": "RemoveAll", "reset": "Reset"}[k]
 
 
 def cobs(rec, prev) -> str:
@@ -408,7 +448,7 @@ def evaluate(ctx: Ctx, items, tag: str):
             continue
         triples.append((c, r, mode != "default"))
         kept.append((c, r, mode))
-    per = 80
+    per = 80 if ctx.quick else 160
     files = {f"{tag}_{k // per:03d}": emit_file(triples[k:k + per], selfcheck=not ctx.quick)
              for k in range(0, len(triples), per)}
     res = core.coq_eval_many(ctx, files, timeout=900, par=8)
@@ -451,10 +491,61 @@ def to_violation(item, k_bad: int, mismatching: bool) -> Violation:
                      what=what, sig=sig)
 
 
+def trace_events(c, r) -> set:
+    """Situations a sequence actually went through, read off the observed frames (which state the container was in
+    when an op arrived) -- the conditions the state machine branches on."""
+    ev = set()
+    tr = r.get("trace", [])
+    prev, dirty, fresh = [], False, True      # frame before the op; array mode holds charge; no read since the frame changed
+    for o, t in zip(c["ops"], tr):
+        cur, k = t.get("f", []), o["op"]
+        if k == "arr" and t.get("o") == "unit":
+            pos = any(x > 0 for row in o["a"] for x in row)
+            ev.add("arr_on_frame" if prev else "arr_in_array_mode")
+            if o.get("dt", "f8") != "f8":
+                ev.add("arr_narrow_dtype")
+            if not prev and pos:
+                dirty = True
+        elif k == "cl":
+            if not prev and dirty and o["cs"]:
+                ev.add("array_converted_to_clusters")
+            if prev and o["cs"]:
+                ev.add("clusters_appended")
+            if not o["cs"]:
+                ev.add("empty_cluster_list")
+        elif k in ("rm", "rmall"):
+            if prev and not cur:
+                ev.add("removal_empties_frame" + ("" if fresh else "_after_read"))
+            elif prev and len(cur) < len(prev):
+                ev.add("removal_partial" + ("" if fresh else "_after_read"))
+            elif prev:
+                ev.add("removal_misses")
+            else:
+                ev.add("removal_in_array_mode" + ("_with_charge" if dirty else ""))
+        elif k in ("read", "xr", "np"):
+            if prev:
+                ev.add(k + ("_first_on_frame" if fresh else "_repeated_on_frame"))
+            elif k != "read":
+                ev.add(k + "_in_array_mode")
+        elif k == "reset":
+            ev.add("reset_on_frame" + ("" if fresh else "_after_read") if prev else "reset_in_array_mode")
+            dirty = False
+        if k in ("read", "xr", "np") and prev:
+            fresh = False
+        if cur != prev:
+            fresh = True
+            if not cur:
+                dirty = False
+        prev = cur
+    return ev
+
+
 def account(ctx: Ctx, kept):
     seen = set()
     for c, r, mode in kept:
         f = case_features(c)
+        for e in sorted(trace_events(c, r)):
+            ctx.dist("situation", e)
         ctx.count("evaluations", len(r.get("trace", [])))
         ctx.count("sequences")
         ctx.dist("mode", mode)
@@ -519,12 +610,14 @@ def run(ctx: Ctx):
 
     r = ctx.rng("cases")
     corpus = load_corpus()
-    n_fast = ctx.budget(1200, 9000)
+    n_fast = ctx.budget(900, 9000)
     n_jit = ctx.budget(120, 900)
     n_def = ctx.budget(30, 300)
     n_unsafe = ctx.budget(8, 60)
     streams = ["clean"] * 8 + ["removal"] * 4 + ["outside"] * 4 + ["malformed"] * 2 + ["inexact"] * 3
-    fast = corpus + [gen_case(r, r.choice(streams)) for _ in range(n_fast)]
+    enum = enum_cases(ctx.budget(3, 4))
+    ctx.cov["exhaustive_small_scope"] = dict(alphabet=len(ENUM_ALPHABET), max_len=ctx.budget(3, 4), sequences=len(enum))
+    fast = corpus + enum + [gen_case(r, r.choice(streams)) for _ in range(n_fast)]
     jit = corpus + [gen_case(r, r.choice(streams)) for _ in range(n_jit)]
     # numba's default (unchecked) configuration: only cases the model says stay in bounds ...
     dflt = []
@@ -555,7 +648,7 @@ def run(ctx: Ctx):
     unsafe_seen = [(c, rr) for c, rr, m in kept if m == "default" and case_features(c)["beyond"]]
     ctx.cov["default_config_out_of_bounds_runs"] = dict(
         runs=len(unsafe_seen), process_crashed=sum(1 for _, rr in unsafe_seen if rr.get("crashed")))
-    for c, rr, m in kept[:2] + kept[len(corpus):len(corpus) + 3]:
+    for c, rr, m in kept[:2] + kept[len(corpus) + len(enum):len(corpus) + len(enum) + 3]:
         ctx.sample(dict(geometry=[c["rows"], c["cols"], c["ph"], c["pw"]], ops=c["ops"][:4], n_ops=len(c["ops"]),
                         mode=m, last=rr["trace"][-1] if rr.get("trace") else None))
     for item, k_bad, mm in viol:
